@@ -561,3 +561,36 @@ def c17(ctx):
     ctx.assumptions = ["a fixed-string CORS origin is sent whatever the request's Origin is (it names the configured origin, not the request's)"]
     return M.finish(ctx, rule="one case = one HTTP response (handshake / poll / post / poll) of a fresh server per cookie cell, or one request per CORS cell "
                     "(policy shape x credentials x request origin x preflight x preflightContinue x status)", exhaustive=True, evs=evs)
+
+
+# ------------------------------------------------------------------ C09 / C10
+HOST_CFG = ('SPECIFICATION Spec\nCONSTANTS Phases = {"fresh", "traffic", "upgrading", "pinged"} Classes = {"wrongdir", "early-heartbeat", "unknown-type", '
+            '"empty-packet", "v3-trunc-len", "v3-inflated-len", "v3-neg-len", "v3bin-garbage", "bad-utf8", "bad-base64", "octet-v4", "odd-method", "huge-query", '
+            '"jsonp-garbage", "ws-binary-on-b64", "ws-empty", "ws-control", "ws-after-close", "post-after-close", "eio-mismatch-upgrade", "garbage-body", '
+            '"double-colon", "many-packets"}\n Revs = {3, 4} Kinds = {"polling", "websocket"} Limits = {100, 1000, 5000} Mode = "%s"\nINVARIANTS Total SizeOK\n')
+
+
+@prop("C09")
+def c09(ctx):
+    M.tlc_model(ctx, "Hostile", HOST_CFG % "host", "hostile_table")
+    evs = eng_run(ctx, [], 40, 600, ("host",))
+    # coverage of the (class, revision, transport) cells by the hostile steps of this run
+    seen = {(e["class"], e["proto"], e["kind"]) for e in evs if e["e"] == "hostile"}
+    ctx.extra["hostile_cells_exercised"] = len(seen)
+    ctx.extra["hostile_steps"] = sum(1 for e in evs if e["e"] == "hostile")
+    ctx.assumptions = ENG_ASSUME + ["class-based generation with random concretisation; no coverage-guided byte-level fuzzing",
+                                    "CPU budget per hostile step: 1.5 s + 20 ms per kilobyte received",
+                                    "WebTransport handshake garbage ('0null') is not driven at engine level"]
+    return M.finish(ctx, rule="one trace = a server with a canary session and 4-8 victim sessions, each hit in a random phase by one hostile input class "
+                    "(23 classes x revisions x transports); after every hostile step the canary must complete a message round trip", evs=evs)
+
+
+@prop("C10")
+def c10(ctx):
+    M.tlc_model(ctx, "Hostile", HOST_CFG % "size", "size_table")
+    evs = eng_run(ctx, [], 40, 600, ("limit",))
+    ctx.extra["size_probes"] = sum(1 for e in evs if e["e"] in ("c10.post", "c10.frame"))
+    ctx.assumptions = ENG_ASSUME + ["the constant K of 'limit plus a constant' is one read buffer: 64 KiB",
+                                    "WebTransport frames are bounded at the framing layer (C15)"]
+    return M.finish(ctx, rule="one trace = a server with limit 100/1000/5000 receiving polling bodies (declared and unknown length, single and multi-packet) and "
+                    "websocket frames (direct and upgraded sessions) of limit-1, limit, limit+1, 10x and 300x the limit, with a canary session", evs=evs)
